@@ -160,10 +160,11 @@ def wrap_paragraph_lines(
     """
     lines: list[str] = []
 
-    # Handle width <= 0 as "no wrapping".
+    # Handle width <= 0 as "no wrapping": the paragraph becomes a single line. Whitespace
+    # runs and line breaks are always collapsed here, exactly as the wrapping path below
+    # does when it re-joins the words with single spaces.
     if width <= 0:
-        if replace_whitespace:
-            text = re.sub(r"\s+", " ", text)
+        text = re.sub(r"\s+", " ", text)
         if drop_whitespace:
             text = text.strip()
         return [text] if text else []
